@@ -45,6 +45,7 @@ FailsConv(r) ==
     \o Clause("vec_from_integer_pixel_is_great_circle", IntVecGreatCircle(r))
     \o Clause("vec_from_integer_pixel_is_bearing", IntVecBearing(r))
     \o Clause("ell_from_integer_pixel_is_great_circle", IntEllGreatCircle(r))
+    \o Clause("used_helper_answers_like_a_fresh_helper", HelperHasNoMemory(r))
     \o Clause("vec_sky2pix_great_circle_east_of_north", VecForward(r))
     \o Clause("vec_east_of_north", VecEastOfNorth(r))
     \o Clause("ell_major_round_trip", EllMajorRoundTrip(r))
